@@ -63,7 +63,7 @@ theorem peOpen_signal_mono (w : World) (p : Proc) (b : BId) (e x : EId) (h : (w.
   unfold peOpen
   simp only []
   have h1 : (((w.modEv e fun E => { E with results := E.results ++ (applicable w b e).map fun k => { hid := k, bus := b } }).setAct p
-      (some { bus := b, ev := e, todo := applicable w b e, running := [] })).ev x).signal = true := by
+      (some { bus := b, ev := e, todo := applicable w b e, running := [], sel := applicable w b e })).ev x).signal = true := by
     simp only [setAct_ev, modEv_eq, setEv_ev]
     split
     · rename_i hx; subst hx; exact h
